@@ -27,7 +27,7 @@ pub assume_specification[ std::process::ExitStatus::success ](s: &std::process::
 
 pub enum GitAiError { Generic(String) }
 #[verifier::external_body] pub struct VirtualAttributions { _o: () }
-pub struct RepoStorage { pub _opaque: () }
+#[verifier::external_body] pub struct RepoStorage { _o: () }
 /// what a hook did to the pending attribution, in order
 pub enum Effect {
     /// storage.delete_working_log_for_base_commit(base): ALL pending attribution recorded against `base` is dropped
